@@ -9,10 +9,10 @@ import (
 	"context"
 	"time"
 
-	math "github.com/IBM/mathlib"
 	"github.com/IBM/TSS/mpc/bls"
 	"github.com/IBM/TSS/mpc/ps"
 	tss "github.com/IBM/TSS/types"
+	math "github.com/IBM/mathlib"
 
 	"verif/core/sim"
 )
